@@ -49,6 +49,8 @@ type C10Case struct {
 	// Lives: before the calls the client is closed and initialized again this many times (handlers are registered after the last
 	// handshake): a client's later lives deliver like its first
 	Lives int `json:"lives,omitempty"`
+	// NoSession: the server is created WithoutSession() (sessions disabled) while answers to POST stay event streams
+	NoSession bool `json:"nosession,omitempty"`
 }
 
 var c10Methods = []string{"notifications/progress", "notifications/message", "notifications/custom-a", "custom/b", "x"}
@@ -89,6 +91,7 @@ func genC10(t *rapid.T) C10Case {
 		call.Fail = rapid.IntRange(0, 5).Draw(t, "callfails") == 0
 		c.Calls = append(c.Calls, call)
 	}
+	c.NoSession = c.Mode == ModeSS && rapid.IntRange(0, 3).Draw(t, "nosession") == 0
 	if rapid.IntRange(0, 4).Draw(t, "lives") == 0 {
 		c.Lives = rapid.IntRange(1, 2).Draw(t, "nlives")
 	}
@@ -157,7 +160,12 @@ type c10Seen struct {
 }
 
 func execC10(c C10Case) *Failure {
-	w := NewWorld(c.Mode, RegSpec{}, WorldOpt{})
+	var wo WorldOpt
+	if c.NoSession {
+		wo.ServerOpts = append(wo.ServerOpts, mcp.WithoutSession())
+		c.Abandon = 0 // the abandoned-call prelude uses reference sessions
+	}
+	w := NewWorld(c.Mode, RegSpec{}, wo)
 	defer w.Close()
 	var emitErrs sync.Map
 	w.Srv.RegisterTool(mcp.NewTool("emit", mcp.WithNumber("call")), func(ctx context.Context, req *mcp.CallToolRequest) (*mcp.CallToolResult, error) {
@@ -409,7 +417,7 @@ func execC10(c C10Case) *Failure {
 		return Failf("C10/unattributable-notification", "%s: a handler received %s %v, which no call emitted", c.Mode, seen[-1][0].method, seen[-1][0].params)
 	}
 	for ci, call := range c.Calls {
-		where := fmt.Sprintf("%s call %d (%d notifications emitted, handler fails=%v, handlers %v, %d concurrent calls, client life %d)", c.Mode, ci, len(call.Notifs), call.Fail, c.Handlers, len(c.Calls), c.Lives+1)
+		where := fmt.Sprintf("%s%s call %d (%d notifications emitted, handler fails=%v, handlers %v, %d concurrent calls, client life %d)", c.Mode, map[bool]string{true: " with sessions disabled", false: ""}[c.NoSession], ci, len(call.Notifs), call.Fail, c.Handlers, len(c.Calls), c.Lives+1)
 		if results[ci].err != nil {
 			f := Failf("C10/result-lost", "%s: CallTool failed: %v", where, results[ci].err)
 			f.Timing = isTimeoutText(results[ci].err.Error())
@@ -481,7 +489,7 @@ func execC10(c C10Case) *Failure {
 		}
 	}
 	// event ids on one POST stream are pairwise distinct (reference peer)
-	if sseMode {
+	if sseMode && !c.NoSession {
 		conn, err := w.Connect()
 		if err != nil {
 			return Failf("C10/connect", "%v", err)
